@@ -190,6 +190,17 @@ def run_reorg_case(case, res, prop):
         w.start_sync()
         try:
             w.run_until_caught_up()
+            if case.get('restart'):
+                # the server is stopped and started again before the daemon reorganises (the
+                # downloaded block files are gone by then: orphaned blocks must be re-fetched)
+                m = w.machine
+                w.close(destroy=False)
+                w = world.World(m, reorg_limit=limit, activation=act,
+                                prefetch=case.get('prefetch', 100), chunk_size=case.get('chunk'))
+                w.daemon.set_chain(base.blocks)
+                w.start_sync()
+                w.run_until_caught_up()
+                res.count('restarts_before_reorg')
             # what Controller.serve does after the first catch-up; then a client asks for a
             # header proof against the current tip, which extends the header merkle cache
             w.loop.run_coro(w.db.populate_header_merkle_cache(), fire_timers=False)
